@@ -239,3 +239,79 @@ func isIterNext(in ssa.Instruction) bool {
 	}
 	return false
 }
+
+// transformFn: a function of the transform machinery with the label the rules name it by.
+type transformFn struct {
+	fn    *ssa.Function
+	label string // "FocusedTransform", "WalkTransforming", "WalkTransforming/list", "WalkTransforming/map"
+}
+
+// transformFns finds, by role, the recursive functions of package traversal that carry the user's TransformFn:
+// the focused transform (reached from the exported FocusedTransform) and the transforming walk (reached from the
+// exported WalkTransforming) with its list- and map-rebuilding iterators (the ones that open a list / a map on a builder).
+func (tr *travRoles) transformFns() []transformFn {
+	var out []transformFn
+	used := map[string]int{}
+	for _, fn := range tr.fns {
+		if fn.Parent() != nil || !tr.recursive(fn) {
+			continue
+		}
+		has := false
+		for _, prm := range fn.Params {
+			if nt := namedOfType(prm.Type()); nt != nil && nt.Obj().Name() == "TransformFn" {
+				has = true
+			}
+		}
+		if !has || token.IsExported(fn.Name()) {
+			continue
+		}
+		label := "FocusedTransform"
+		if tr.underWalkAPI(fn) {
+			label = "WalkTransforming"
+			for _, ci := range core.Calls(fn) {
+				cc := ci.Common()
+				if cc.IsInvoke() && cc.Method.Name() == "BeginList" {
+					label = "WalkTransforming/list"
+				}
+				if cc.IsInvoke() && cc.Method.Name() == "BeginMap" {
+					label = "WalkTransforming/map"
+				}
+			}
+		}
+		used[label]++
+		out = append(out, transformFn{fn, label})
+	}
+	// labels must name one function each; when a role is split over several functions, tell them apart by name
+	for i := range out {
+		if used[out[i].label] > 1 {
+			out[i].label += ":" + out[i].fn.Name()
+		}
+	}
+	return out
+}
+
+// loadsBlock: g (a function of the package that is not part of a recursion) loads a block somewhere in its region.
+func (tr *travRoles) loadsBlock(g *ssa.Function) bool {
+	if g == nil || len(g.Blocks) == 0 || tr.recursive(g) || core.FuncPkg(g) == nil || core.RelPkg(core.FuncPkg(g).Path()) != "traversal" {
+		return false
+	}
+	for _, ci := range core.CallsR(g) {
+		if isBlockLoad(ci) {
+			return true
+		}
+	}
+	return false
+}
+
+// isTransformCallee: the callee is (an exported wrapper of) a recursive function carrying the TransformFn.
+func (tr *travRoles) isTransformCallee(cal *ssa.Function) bool {
+	if cal == nil || len(cal.Blocks) == 0 || core.FuncPkg(cal) == nil || core.RelPkg(core.FuncPkg(cal).Path()) != "traversal" || !tr.recursive(cal) {
+		return false
+	}
+	for _, prm := range cal.Params {
+		if nt := namedOfType(prm.Type()); nt != nil && nt.Obj().Name() == "TransformFn" {
+			return true
+		}
+	}
+	return false
+}
